@@ -20,7 +20,7 @@ import zipfile
 from run import Broken, Violation
 from props import c03_bound as B
 
-GEN = ["Units", "UnitsBound"]
+GEN = ["Units", "UnitsBound", "PyUnits"]
 RULE = ("type-directed random instances of the 17 *Content dataclasses (texts drawn from words x every Python "
         "whitespace / line-boundary character, heading styles, page breaks, anchors, arbitrary slide numbers) "
         "+ extraction results of every file under tests/resources + generated PPTX/EPUB zips, PPT record streams, "
